@@ -176,6 +176,60 @@ theorem rotate_throw_closed (s : St) (exp : Bool) (hc bc kc : Cuts) (r : Resp) (
     · simp only [if_true]; rw [f2, f1]
   · simp only [if_true]; exact f1
 
+/-- a rotation only ever appends to the list of closed outputs -/
+theorem rotate_closed_prefix (s : St) (exp : Bool) (hc bc kc : Cuts) (r : Resp) :
+    ∃ ext, (rotate hdr enc s exp hc bc kc r).1.closed = s.closed ++ ext := by
+  cases ht : (rotate hdr enc s exp hc bc kc r).2
+  · unfold rotate at ht ⊢
+    have f1 : (if exp then writeBlock hdr enc s hc bc else (s, false)).1.closed = s.closed := by
+      split
+      · exact (writeBlock_frame hdr enc s hc bc).2
+      · rfl
+    generalize (if exp then writeBlock hdr enc s hc bc else (s, false)) = p1 at ht f1
+    obtain ⟨s1, t1⟩ := p1
+    cases t1
+    · simp only [Bool.false_eq_true, if_false] at ht ⊢
+      have f2 : (if s1.bw > 0 then emit s1 [0xff] kc else (s1, false)).1.closed = s1.closed := by
+        split
+        · exact (emit_frame s1 _ kc).2.2.2
+        · rfl
+      generalize (if s1.bw > 0 then emit s1 [0xff] kc else (s1, false)) = p2 at ht f2
+      obtain ⟨s2, t2⟩ := p2
+      cases t2
+      · simp only [Bool.false_eq_true, if_false] at ht ⊢
+        have f4 := flush_frame { s2 with bw := 0 } r
+        cases ht4 : (flush { s2 with bw := 0 } r).2
+        · simp only [Bool.false_eq_true, if_false]
+          refine ⟨[⟨(flush { s2 with bw := 0 } r).1.w.out, (flush { s2 with bw := 0 } r).1.given, (flush { s2 with bw := 0 } r).1.threw⟩], ?_⟩
+          show (flush { s2 with bw := 0 } r).1.closed ++ _ = _
+          rw [f4.1.2.2.2]; show s2.closed ++ _ = _; rw [f2, f1]
+        · rw [ht4] at ht; simp at ht
+      · simp at ht
+    · simp at ht
+  · exact ⟨[], by rw [rotate_throw_closed hdr enc s exp hc bc kc r ht]; simp⟩
+
+theorem step_closed_prefix (s : St) (op : Op) : ∃ ext, (step hdr enc s op).1.closed = s.closed ++ ext := by
+  cases op with
+  | buffer r => exact ⟨[], by simp [step]⟩
+  | bufferW r hc bc => exact ⟨[], by simp only [step, List.append_nil]; exact (writeBlock_frame hdr enc { s with cur := s.cur ++ [r] } hc bc).2⟩
+  | writeBlock hc bc => exact ⟨[], by simp only [step, List.append_nil]; exact (writeBlock_frame hdr enc s hc bc).2⟩
+  | rotate exp hc bc kc r => exact rotate_closed_prefix hdr enc s exp hc bc kc r
+
+theorem run_closed_prefix (ops : List Op) : ∀ s, ∃ ext, (run hdr enc s ops).1.closed = s.closed ++ ext := by
+  induction ops with
+  | nil => intro s; exact ⟨[], by simp [run]⟩
+  | cons op ops ih =>
+    intro s
+    obtain ⟨e1, h1⟩ := step_closed_prefix hdr enc s op
+    obtain ⟨e2, h2⟩ := ih (step hdr enc s op).1
+    exact ⟨e1 ++ e2, by show (run hdr enc (step hdr enc s op).1 ops).1.closed = _; rw [h2, h1, List.append_assoc]⟩
+
+theorem run_append (ops1 ops2 : List Op) (s : St) :
+    (run hdr enc s (ops1 ++ ops2)).1 = (run hdr enc (run hdr enc s ops1).1 ops2).1 := by
+  induction ops1 generalizing s with
+  | nil => rfl
+  | cons op ops ih => exact ih _
+
 /-- between API calls -/
 theorem shape_step (s : St) (op : Op) (h : ShapeInv hdr enc s) : ShapeInv hdr enc (step hdr enc s op).1 := by
   cases op with
